@@ -24,6 +24,7 @@
 #include <atomic>
 #include <cstddef>
 #include <cstdint>
+#include <iterator>
 #include <memory>
 
 ////////////////////////////////////////////////////////////////////////////////
@@ -97,28 +98,37 @@ namespace pika::threads::detail {
     void thread_data::run_thread_exit_callbacks()
     {
         std::unique_lock<pika::detail::spinlock> l(spinlock_pool::spinlock_for(this));
+        PIKA_VERIF_POST("ec.begin", this, std::distance(exit_funcs_.begin(), exit_funcs_.end()), 0);
 
         while (!exit_funcs_.empty())
         {
             {
+                PIKA_VERIF_POST("ec.iter", this, std::distance(exit_funcs_.begin(), exit_funcs_.end()), 0);
                 pika::detail::unlock_guard<std::unique_lock<pika::detail::spinlock>> ul(l);
+                PIKA_VERIF_POINT("ec.window", this, 0, 0);
                 if (!exit_funcs_.front().empty()) exit_funcs_.front()();
+                PIKA_VERIF_POINT("ec.window", this, 1, 0);
             }
+            PIKA_VERIF_POST("ec.pop", this, std::distance(exit_funcs_.begin(), exit_funcs_.end()), 0);
             exit_funcs_.pop_front();
         }
         ran_exit_funcs_ = true;
+        PIKA_VERIF_POST("ec.ran", this, 0, 0);
     }
 
     bool thread_data::add_thread_exit_callback(util::detail::function<void()> const& f)
     {
         std::lock_guard<pika::detail::spinlock> l(spinlock_pool::spinlock_for(this));
 
+        PIKA_VERIF_PRE("ec.add", this);
         if (ran_exit_funcs_ || get_state().state() == thread_schedule_state::terminated)
         {
+            PIKA_VERIF_POST("ec.add", this, verif_self(), ran_exit_funcs_ ? 0 : 2);
             return false;
         }
 
         exit_funcs_.push_front(f);
+        PIKA_VERIF_POST("ec.add", this, verif_self(), 1);
 
         return true;
     }
@@ -140,8 +150,10 @@ namespace pika::threads::detail {
         // order to avoid infinite recursion. This function is called by
         // this_thread::suspend which causes problems if the lock would call
         // suspend itself.
+        PIKA_VERIF_PRE("ip.test", this);
         if (enabled_interrupt_ && requested_interrupt_)
         {
+            PIKA_VERIF_POST("ip.test", this, 1, throw_on_interrupt ? 1 : 0);
             // Verify that there are no more registered locks for this
             // OS-thread. This will throw if there are still any locks
             // held.
@@ -150,12 +162,15 @@ namespace pika::threads::detail {
             // now interrupt this thread
             if (throw_on_interrupt)
             {
+                PIKA_VERIF_PRE("ip.clear", this);
                 requested_interrupt_ = false;    // avoid recursive exceptions
+                PIKA_VERIF_POST("ip.clear", this, 0, 0);
                 throw pika::thread_interrupted();
             }
 
             return true;
         }
+        PIKA_VERIF_POST("ip.test", this, 0, (enabled_interrupt_ ? 1 : 0) | (requested_interrupt_ ? 2 : 0));
         return false;
     }
 
